@@ -317,6 +317,20 @@ func ruleBlockRemainder(p *Prog, r *Out) {
 			}
 			if squash(p.text(s)) == "strm.blockOpen=!fr.Flags().Has(FlagEndHeaders)" {
 				set = true
+				// ... and before anything can turn the frame away: no return
+				// stands in front of the store (it is a statement of the body
+				// itself, so every path to a later return runs it)
+				early := 0
+				ast.Inspect(hd.Body, func(n ast.Node) bool {
+					if _, lit := n.(*ast.FuncLit); lit {
+						return false
+					}
+					if rs, ok := n.(*ast.ReturnStmt); ok && rs.Pos() < s.Pos() {
+						early++
+					}
+					return true
+				})
+				r.check(early == 0, "the open-block mark is stored before any way out of handleHeaderFrame", p.pos(s.Pos()), "no return statement precedes strm.blockOpen = !END_HEADERS", fmt.Sprintf("%d return statement(s) of handleHeaderFrame stand in front of the store to strm.blockOpen: a HEADERS frame refused as a whole (a priority section naming its own stream, trailers without END_STREAM) whose block goes on in a CONTINUATION leaves the mark false, closeStream then hands nothing to sc.discard, and the CONTINUATION is decoded from the middle of a field: COMPRESSION_ERROR, or a dynamic table out of step for every later stream", early))
 			}
 		}
 		r.check(set, "an open header block is recorded on the stream", p.pos(hd.Pos()), "strm.blockOpen = !END_HEADERS before the decode loop", "handleHeaderFrame no longer records, for every header frame and before anything can reject it, whether the block goes on in a CONTINUATION: a stream given up mid-block leaves the rest of the block undecoded")
